@@ -144,7 +144,7 @@ theorem iipBody_good {w : W} {interest : Nat} {r : Nat × W} (hg : Good w) (h : 
   have hm0sym : m0.poolSym = w.pool.sym := by rw [poolSym_congr hm0s.coll.symm hm0s.cust.symm]; exact hg.home
   have hnsym : r.2.mtp.poolSym = w.pool.sym := by rw [poolSym_congr hcoll hcu]; exact hg.home
   obtain ⟨hmem, hk0⟩ := getMtpL_some_mem hm0
-  refine ⟨⟨?_, ?_, ?_, ?_, ?_⟩, hkey, hsym, ⟨fun k' hk' => by rw [hmtps]; exact getMtpL_setMtpL_other _ (by rw [hkey]; exact hk'), fun y hy => by rw [hpools]; exact getPoolL_setPoolL_other _ (by rw [hsym]; exact hy)⟩⟩
+  refine ⟨⟨?_, ?_, ?_, ?_, ?_⟩, hkey, hsym, ⟨fun k' hk' => by rw [hmtps]; exact getMtpL_setMtpL_other _ (by rw [hkey]; exact hk'), fun y hy => by rw [hpools]; exact getPoolL_setPoolL_other _ (by rw [hsym]; exact hy), hmc⟩⟩
   · unfold OKp
     rw [hpools, hmtps, hoc]
     apply OKc_trans (sym := w.pool.sym) (p0 := p0) (old := some m0) (new := some r.2.mtp) hg.ok hg.wf.syms hp0 hsym
